@@ -2567,6 +2567,8 @@ func lemmaForwardSession(raw *rawEnvelope) (e *Session, e3 *Session, accepted bo
 //@   ensures [C16] @neverenlarged result1 != nil ==> t.limitedReader.N <= old(t.limitedReader.N) || t.limitedReader.N == t.ReadLimit
 //@   ensures [C12] @kinds result1 == nil ==> result0 != nil && !payloadnil(result0) && isKind(result0)
 //@   ensures [C09,C12] @stillopen result1 == nil ==> t.conn != nil && !t.eof  ## Transport model: a successful Receive leaves the transport connected
+//@   ensures [C12] @notopen old(t.conn == nil || t.eof) ==> result1 != nil
+//@   ensures [C12] @monotone t.conn != nil && !t.eof ==> old(t.conn != nil && !t.eof)  ## Transport model: a transport never becomes connected again
 //@   ensures tcpInv(t)
 
 //@ func (*tcpTransport).Send
@@ -2577,6 +2579,7 @@ func lemmaForwardSession(raw *rawEnvelope) (e *Session, e3 *Session, accepted bo
 //@   oncall [C04] (*encoding/json.Encoder).Encode : a_v == e
 //@   ensures [C12] @notopen old(t.conn == nil || t.eof) ==> result != nil
 //@   ensures [C09,C12] @stillopen result == nil ==> t.conn != nil && !t.eof  ## Transport model: a successful Send leaves the transport connected
+//@   ensures [C12] @monotone t.conn != nil && !t.eof ==> old(t.conn != nil && !t.eof)
 
 //@ func (*tcpTransport).Encryption
 //@   props C09 C10
